@@ -204,9 +204,8 @@ Fixpoint sg (fuel : nat) (str : option bool) (sz : option Z) (t : ty) (lists : l
                                   | [] => Ok []
                                   | t1 :: ts' =>
                                       do col <- mapM (field i) xs;
-                                      do lt <- list_elem_ty t1;
-                                      do ls <- mapM as_list col;
-                                      do r <- sg fuel' (str_of_ty t1) (fst lt) (snd lt) ls [head] adv;
+                                      (* the field may itself be a record: go through the generic element path *)
+                                      do r <- sg fuel' None None t1 (map (fun x => Some [x]) col) [IAt 0; head] adv;
                                       do rs <- go (i + 1) ts';
                                       Ok (r :: rs)
                                   end) 0 ts;
